@@ -6,6 +6,7 @@ import (
 	"fmt"
 	"math/rand"
 	"os"
+	"os/exec"
 	"path/filepath"
 	"strconv"
 	"strings"
@@ -102,6 +103,8 @@ func c06Body(r *vlib.Run) int {
 		}
 	})
 	c06Provoke(r)
+	c06LongRun(r)
+	c06PipeRuns(r)
 	c06Systematic(r)
 	c06Merge(r)
 	return len(plans) * runsPer / 2
@@ -312,13 +315,161 @@ func c06Run(r *vlib.Run, cf *c06Fleet, rng *rand.Rand, pi, run int, w2 bool, pro
 	r.Violation(what, detail)
 }
 
+// c06LongRun: runs which last several report intervals and have large partial
+// results (many groups): interim transmissions, their hand-over and the final
+// one all happen while lines still arrive; every line must be accounted for.
+func c06LongRun(r *vlib.Run) {
+	nRuns := r.N(2, 10)
+	fl, err := startFleet(r, "c06long", 2, map[string]interface{}{"MaxConcurrentCats": 2, "MaxConnections": 50}, nil, "error")
+	if err != nil {
+		r.Inconclusive("fleet-start")
+		return
+	}
+	defer fl.Stop()
+	groups := r.N(6000, 60000)
+	perSrv := r.N(20000, 150000)
+	for s := range fl.Servers {
+		var b bytes.Buffer
+		for q := 0; q < perSrv; q++ {
+			fmt.Fprintf(&b, "INFO|1002-071209|1|m.go:1|8|14|7|0.21|471h|MAPREDUCE:CONS|fid=k%d|g=g1|w=1|seq=%d\n", (q*7+s)%groups, q)
+		}
+		fl.WriteFile(s, "long/in.log", b.Bytes())
+	}
+	vlib.Parallel(nRuns, 2, func(run int) {
+		out := filepath.Join(fl.Home, fmt.Sprintf("long-%d.csv", run))
+		query := "from CONS select fid,count($line),sum(w) group by fid interval 1 limit 1000000 outfile " + out
+		args := append(fl.ClientArgs(), "--logger", "stdout", "--logLevel", "error", "--noColor", "--files", "long/in.log", "--query", query)
+		res := vlib.RunCmd(vlib.Cmd{Path: r.Bin("dmap"), Args: args, Env: fl.ClientEnv(), Dir: fl.Home, Watchdog: 300 * time.Second})
+		r.Eval(fmt.Sprintf("longrun|%d", run))
+		r.Count("long_runs", 1)
+		r.Max("long_run_max_wall_ms", int(res.Wall.Milliseconds()))
+		if res.TimedOut {
+			r.Inconclusive("dmap-watchdog")
+			return
+		}
+		total := 0
+		if b, err := os.ReadFile(out); err == nil {
+			_, rows := mq.ParseCSV(string(b))
+			for _, row := range rows {
+				if len(row) == 3 {
+					c, _ := strconv.Atoi(row[1])
+					total += c
+				}
+			}
+		}
+		os.Remove(out)
+		os.Remove(out + ".query")
+		want := perSrv * len(fl.Servers)
+		r.Count("lines_accounted", total)
+		if total != want || res.Exit != 0 || res.Hung {
+			what := "lines-missing-from-result"
+			if total > want {
+				what = "lines-counted-more-than-once"
+			} else if res.Hung {
+				what = "dmap-did-not-terminate"
+			}
+			r.Violation(what, map[string]interface{}{"scenario": fmt.Sprintf("long run: 2 servers x %d lines, %d groups, interval 1, one file per server", perSrv, groups),
+				"lines_in_result": total, "want": want, "exit": res.Exit, "hung": res.Hung, "wall_s": res.Wall.Seconds(), "stderr": vlib.Trunc(string(res.Stderr), 800)})
+		}
+	})
+	for s := range fl.Servers {
+		os.RemoveAll(filepath.Join(fl.Servers[s].Spec.Dir, "long"))
+	}
+}
+
+// c06PipeRuns: serverless dmap reading its input from a pipe that stays open
+// for 1-2 report intervals after 120 000 lines in 120 000 groups were written:
+// a large interim result is being handed over when the input ends and the final
+// result follows. Every line must be in the final result.
+func c06PipeRuns(r *vlib.Run) {
+	// delay between the last byte written and the end of the input, spread over
+	// one report interval (the reader needs ~2 s for the 120 000 lines, so one or
+	// two interim reports happen meanwhile)
+	ends := []int{0, 200, 450, 700}
+	if r.Thorough() {
+		ends = nil
+		for d := 0; d < 2000; d += 50 {
+			ends = append(ends, d)
+		}
+	}
+	n := 120000
+	var input bytes.Buffer
+	for q := 0; q < n; q++ {
+		fmt.Fprintf(&input, "INFO|1002-071209|1|m.go:1|8|14|7|0.21|471h|MAPREDUCE:CONS|fid=k%d|g=g1|w=1|seq=%d\n", q, q)
+	}
+	home := serverlessHome(r)
+	// two at a time: the more groups arrive per report interval, the longer an
+	// interim hand-over lasts
+	vlib.Parallel(len(ends), 2, func(i int) {
+		out := filepath.Join(home, fmt.Sprintf("pipe-%d.csv", i))
+		os.Remove(out)
+		query := "from CONS select fid,count($line) group by fid interval 1 limit 10000000 outfile " + out
+		cmd := exec.Command(r.Bin("dmap"), "--cfg", "none", "--logger", "stdout", "--logLevel", "error", "--noColor", "--files", "-", "--query", query)
+		cmd.Dir = home
+		cmd.Env = append(vlib.BaseEnv(home))
+		stdin, _ := cmd.StdinPipe()
+		var se bytes.Buffer
+		cmd.Stderr = &se
+		t0 := time.Now()
+		if err := cmd.Start(); err != nil {
+			r.Inconclusive("dmap-start")
+			return
+		}
+		go func() {
+			stdin.Write(input.Bytes())
+			time.Sleep(time.Duration(ends[i]) * time.Millisecond)
+			stdin.Close()
+		}()
+		done := make(chan error, 1)
+		go func() { done <- cmd.Wait() }()
+		var err error
+		select {
+		case err = <-done:
+		case <-time.After(25 * time.Second):
+			// The aggregator sleeps 100 ms whenever it finds its 100-line queue
+			// empty; once it has caught up with the reader the run proceeds at
+			// ~1000 lines/s and interim results are tiny. Such a run cannot show
+			// what this scenario is about and is not judged.
+			cmd.Process.Kill()
+			<-done
+			r.Eval("")
+			r.Count("pipe_runs_in_slow_regime_not_judged", 1)
+			return
+		}
+		r.Max("pipe_run_max_wall_ms", int(time.Since(t0).Milliseconds()))
+		r.Eval(fmt.Sprintf("piperun|%d", ends[i]))
+		r.Count("pipe_runs", 1)
+		total := 0
+		if b, e := os.ReadFile(out); e == nil {
+			_, rows := mq.ParseCSV(string(b))
+			for _, row := range rows {
+				if len(row) == 2 {
+					c, _ := strconv.Atoi(row[1])
+					total += c
+				}
+			}
+		}
+		os.Remove(out)
+		os.Remove(out + ".query")
+		r.Count("lines_accounted", total)
+		if total != n || err != nil {
+			what := "lines-missing-from-result"
+			if total > n {
+				what = "lines-counted-more-than-once"
+			}
+			r.Violation(what, map[string]interface{}{"scenario": fmt.Sprint("serverless dmap on a pipe: ", n, " lines/groups, interval 1, input ends ") + fmt.Sprint(ends[i]) + " ms after the last line was written",
+				"lines_in_result": total, "want": n, "error": fmt.Sprint(err), "stderr": vlib.Trunc(se.String(), 800)})
+		}
+	})
+}
+
 // c06Systematic: MaxConcurrentCats=1 and files ending in a long tail of lines
 // of other tables. The queued file registers within microseconds after its
 // predecessor was closed, while the idle aggregator looks only every 100 ms, so
 // the recorded early exit needs a microsecond-wide window here: if it occurs in
 // half of the runs or more, it is not the recorded rare interleaving.
 func c06Systematic(r *vlib.Run) {
-	env := []string{"VERIF_TRACE=trace.jsonl"}
+	var env []string // no hooks here: their file I/O would widen the window
 	fl, err := startFleet(r, "c06sys", 1, map[string]interface{}{"MaxConcurrentCats": 1, "MaxConnections": 50}, env, "error")
 	if err != nil {
 		r.Inconclusive("fleet-start")
@@ -378,12 +529,15 @@ func c06Systematic(r *vlib.Run) {
 	}
 	r.Count("systematic_scenario_runs", runs)
 	r.Count("systematic_scenario_short_runs", short)
-	if short*2 >= runs {
-		r.Violation("files-queued-behind-the-limit-are-left-out-systematically", map[string]interface{}{
-			"scenario": "MaxConcurrentCats=1, 3 files each ending in 400 lines of another table", "short_runs": short, "runs": runs, "runs_detail": details,
-			"note": "the recorded finding c06.agg-early-exit needs a microsecond-wide window in this scenario"})
-	} else if short > 0 {
+	// How often the recorded early exit occurs here depends on scheduling (on a
+	// CPU-throttled machine the window between "file closed" and "next file
+	// registered" grows from microseconds to a scheduling quantum), so the rate is
+	// reported as an observation and never decides.
+	if short > 0 {
 		r.Known("c06.agg-early-exit", "server-side aggregator finished before all files of the session were registered and closed; their lines are missing")
+	}
+	if short*2 >= runs {
+		fmt.Printf("OBSERVATION property=%s the recorded early exit occurred in %d of %d runs of the limit-1 scenario (usually rare): %v\n", r.Property, short, runs, details)
 	}
 }
 
